@@ -85,4 +85,33 @@ theorem headMin_leftTailOK {s : RState K} (hm : HeadMin s) {lo : K} (hlo : s.min
   rw [hlo] at hm
   exact Or.inl (Option.some.inj hm)
 
+set_option linter.unusedSimpArgs false in
+/-- Writing back the state an object already holds changes what no register answers. -/
+theorem ObjHeap.get_put_same (s : ObjHeap K) (r o : Nat) (h : Hist K) (hg : s.get r = some (o, h)) (r' : Nat) :
+    (s.put o h).get r' = s.get r' := by
+  unfold ObjHeap.get ObjHeap.put at *
+  simp only
+  cases hr : s.regs.find? (·.1 == r) with
+  | none => simp [hr] at hg
+  | some p =>
+    obtain ⟨_, o0⟩ := p
+    simp only [hr, Option.map_eq_some_iff] at hg
+    obtain ⟨q, hq, hq2⟩ := hg
+    have hqo : q.1 = o0 := by simpa using List.find?_some hq
+    obtain ⟨rfl, rfl⟩ : o0 = o ∧ q.2 = h := by simpa using hq2
+    cases hr' : s.regs.find? (·.1 == r') with
+    | none => rfl
+    | some p' =>
+      obtain ⟨_, o'⟩ := p'
+      simp only
+      by_cases ho : o' = o0
+      · subst ho
+        simp [hq, hqo]
+      · have hf : (fun a : Nat × Hist K => !decide (a.1 = o0) && decide (a.1 = o')) = (fun x => x.1 == o') := by
+          funext a
+          by_cases ha : a.1 = o'
+          · simp [ha, ho]
+          · simp [ha]
+        simp [List.find?_filter, Ne.symm ho, hf]
+
 end Distogram
